@@ -100,3 +100,6 @@ def run(ctx):
     r = ctx.rule("R5l", "aarch64 clauses compare tape values as floats (an integer cmeq tells -0.0 from 0.0, unlike the interpreter)", 9 + 16 + 7 + 7)
     for kind in X64.KINDS:
         ctx.guarded(r, XC.check_int_compare, kind)
+    r = ctx.rule("R5m", "aarch64 compare / not / and / or: the compare masks and bitwise selects give the opcode's value in every lane (symbolic masks, all consistent truth assignments)", 12)
+    for kind in X64.KINDS:
+        ctx.guarded(r, XS.check_mask_logic, kind)
